@@ -265,6 +265,18 @@ func genC18(seed int64, tier string, out *Writer) {
 		for cut := 1; cut <= len(pgpPrefixed[1]); cut += 3 {
 			out.Put(J{"k": "seq", "entry": name, "input": B(pgpPrefixed[1][:cut])})
 		}
+		// documents in which a field is spelled twice in other letter cases and not in its own (for the document kinds)
+		if strings.Contains(seedsC18[name][0], ": ") {
+			first := seedsC18[name][0]
+			key := first[:strings.Index(first, ":")]
+			rest := first[strings.Index(first, "\n")+1:]
+			for _, variant := range []string{
+				strings.ToLower(key) + ": alpha\n" + strings.ToUpper(key) + ": beta\n" + rest,
+				strings.ToUpper(key) + ": 1\n" + strings.ToLower(key) + ": 2\n" + strings.Title(strings.ToLower(key)) + "x: 3\n" + rest,
+			} {
+				out.Put(J{"k": "seq", "entry": name, "input": B(variant), "repeat": 24})
+			}
+		}
 		for i := 0; i < n; i++ {
 			sd := seedsC18[name][r.Intn(len(seedsC18[name]))]
 			var in string
@@ -310,6 +322,10 @@ func execC18(vec J, out *Writer) {
 		in := []byte(S(vec["input"]))
 		k1, d1, n1 := guarded(entries[name], in, 10)
 		k2, d2, _ := guarded(entries[name], in, 10)
+		// `repeat`: the same call many more times; the first outcome that differs from the first call is what is logged
+		for i := 2; i < I0(vec["repeat"]) && k2 == k1 && d2 == d1; i++ {
+			k2, d2, _ = guarded(entries[name], in, 10)
+		}
 		if len(in) <= 4096 {
 			seenCalls = append(seenCalls, seenCall{name, in, k1, d1})
 		}
